@@ -477,6 +477,7 @@ Proof.
   destruct res1 as [[[r sd]|]|e r]; try exact H1.
   destruct (_ && _); [exact H1|].
   destruct (algo_run cfg (seed_of sd) level) as [key ev].
+  destruct (algo_fails cfg); [reflexivity|].
   pose proof (single_request_always_ok cfg st1 (sa_make true level key) (sa_interpret true level) no_post t1 s1
                 (sa_make_ok true level key) (sa_make_sends st1 true level key) (sa_interpret_ok true level)) as H2.
   destruct (single_request cfg st1 (sa_make true level key) (sa_interpret true level) no_post t1 s1)
